@@ -36,9 +36,17 @@ Inductive expr :=
 | EToDyn (key : str) (e : expr)                       (* key: trait#type, chosen by the translator *)
 | EDynCall (trait method : str) (recv : expr) (args : list expr)
 | EProj (e : expr) (i : N)
+| EMatchP (scrut : expr) (arms : list (spat * expr))   (* source-level match: full patterns, first match *)
+| ELetP (p : spat) (v body : expr)                      (* source-level destructuring let *)
 with pat :=
 | PLit (l : lit)
-| PTag (ty : str) (idx : N).                            (* enum constructor arm: tag test only *)
+| PTag (ty : str) (idx : N)                             (* enum constructor arm: tag test only *)
+with spat :=
+| SPVar (x : str)
+| SPWild
+| SPLit (l : lit)
+| SPCon (c : ctor) (ps : list spat)
+| SPTuple (ps : list spat).
 
 Record fn := { f_name : str; f_params : list str; f_body : expr }.
 
@@ -234,6 +242,28 @@ Definition binop_val (op : binop) (w : width) (a b : val) (o : list str) : res v
   | _, _, _ => Stuck 20
   end.
 
+(** source semantics of patterns: bindings (innermost last), or no match *)
+Fixpoint smatch (p : spat) (v : val) : option env :=
+  let go_list :=
+    (fix go (ps : list spat) (vs : list val) : option env :=
+       match ps, vs with
+       | [], [] => Some []
+       | p :: ps', v :: vs' =>
+           match smatch p v, go ps' vs' with
+           | Some a, Some b => Some (b ++ a)
+           | _, _ => None
+           end
+       | _, _ => None
+       end) in
+  match p, v with
+  | SPVar x, _ => Some [(x, v)]
+  | SPWild, _ => Some []
+  | SPLit l, _ => match val_eqb (val_of_lit l) v with Some true => Some [] | _ => None end
+  | SPCon c ps, VCon c' vs => if ctor_eqb c c' then go_list ps vs else None
+  | SPTuple ps, VTuple vs => go_list ps vs
+  | _, _ => None
+  end.
+
 Section Interp.
 Variable fns : list fn.
 (** dyn dispatch table: (trait#type key, method) -> function name, built by the translator *)
@@ -346,6 +376,16 @@ Fixpoint eval (fuel : nat) (e : expr) (rho : env) (s : state) {struct fuel} : re
         | VTuple vs => match nth_error vs (N.to_nat i) with Some w => Ok (w, s1) | None => Stuck 50 end
         | _ => Stuck 50
         end
+    | EMatchP sc arms =>
+        bind (v, s1) <- eval fuel sc rho s;
+        (fix go (arms : list (spat * expr)) : res (val * state) :=
+           match arms with
+           | [] => Panic [] (out s1)                       (* no arm matches: the program fails here *)
+           | (p, b) :: r => match smatch p v with Some bs => eval fuel b (bs ++ rho) s1 | None => go r end
+           end) arms
+    | ELetP p v b =>
+        bind (w, s1) <- eval fuel v rho s;
+        match smatch p w with Some bs => eval fuel b (bs ++ rho) s1 | None => Panic [] (out s1) end
     end
   end
 with apply (fuel : nat) (f : val) (args : list val) (s : state) {struct fuel} : res (val * state) :=
